@@ -791,6 +791,14 @@ class Session:
                     self.viol("C07.unselected-changed", {"C07"} | self.pp, i, rep, "unselected %s changed %r -> %r (sel %s)" % (a, src.x[a], rec.x[a], sel))
             if not obs.close(w, dlp):
                 self.viol("C07.weight", {"C07"} | self.pp, i, rep, "regenerate weight %s vs new - old score %.6f" % (w, dlp))
+            # selected choices are redrawn: a continuous selected choice that keeps
+            # its exact bit pattern was not resampled (fresh key material per step)
+            for a in sorted(old_vis & new_vis, key=str):
+                leaf = self.uni.get(a)
+                if leaf is not None and leaf["d"] in ("normal", "uniform", "exponential", "beta", "gamma", "normalv") and sel_member(sel, static_part(a)):
+                    self.probe("regenerate:selected-continuous")
+                    if same_bits(rec.x[a], src.x[a]):
+                        self.viol("C07.selected-not-resampled", {"C07"} | self.pp, i, rep, "selected %s kept its value %r (sel %s)" % (a, src.x[a], sel))
             none_sel = not any(sel_member(sel, static_part(a)) for a in old_vis)
             if none_sel and not changed:
                 self.probe("regenerate:nothing-selected")
